@@ -11,10 +11,21 @@ Afterwards only three names of that namespace are replaced:
   * `Quadratic.solve_systems` -> its assumed contract SOLVE: the exact solution of the linear system whose matrix and
                scaling are the ones returned by the REAL build_system:  x = R * (a^-1 (R * rhs)),  R = diag(right_scaling).
 
-All other functions are the real ones, executed by CPython on NumPy `object` arrays whose entries are `Sc` scalars.
-An `Sc` wraps an element of the rational function field QQ(g1,...,gm) (sympy.polys.fields): arithmetic is exact and every
-value is kept in canonical (cancelled) normal form, so that an identity  lhs == rhs  is decided by  lhs - rhs == 0.
-Python floats met on the way (the code writes `0.5`, `** 2.0`, `= 1.0`) are converted exactly (they are dyadic rationals).
+(`Quadratic.update` is additionally wrapped by a logger that records which model objects were updated - ghost state; the
+real body runs unchanged.)  All other functions are the real ones, executed by CPython on NumPy `object` arrays whose entries
+are `Sc` scalars.  An `Sc` wraps an element of the rational function field QQ(g1,...,gm) (sympy.polys.fields): arithmetic is
+exact and canonical (cancelled) normal forms are kept, so that an identity  lhs == rhs  is decided by  lhs - rhs == 0.
+Python floats met on the way (the code writes `0.5`, `** 2.0`, `= 1.0`) are converted exactly (they are dyadic rationals);
+no sympy Float is ever created.
+
+Determinant denominators.  The only non-monomial denominators come from inverting the interpolation system.  To avoid a
+multivariate gcd at every arithmetic step, 1/D (D = determinant of a solved system, a polynomial in the geometry symbols)
+is represented by a *reciprocal generator* iDk of the field together with the recorded relation iDk * D_k = 1; all later
+arithmetic is then polynomial.  The zero test (FieldCtx.is_zero) is exact modulo these relations: a numerator
+sum_J c_J prod_k iDk^{J_k} vanishes iff the polynomial  sum_J c_J prod_k D_k^{deg_k - J_k}  is identically zero.
+Setting MODEB_NO_LAZY=1 disables the device (plain canonical fractions; slower) - used to cross-check it.
+The linear algebra itself (inverse, determinant) is fraction-free (Bareiss / rref_den of sympy's DomainMatrix over ZZ[gens]).
+selftest() runs positive and negative controls of the zero test, the array arithmetic and the inverse once per process.
 """
 import os
 import signal
@@ -34,7 +45,19 @@ from .core import Unsupported
 from .transform import ensure_repo_on_path, repo_root
 
 SEED = int(os.environ.get("VERIF_SEED", "0") or 0)
-THOROUGH = os.environ.get("VERIF_TIER") == "thorough"
+
+
+def _tier():
+    a = sys.argv
+    for i, x in enumerate(a):
+        if x == "--tier" and i + 1 < len(a):
+            return a[i + 1]
+        if x.startswith("--tier="):
+            return x.split("=", 1)[1]
+    return os.environ.get("VERIF_TIER", "quick")
+
+
+THOROUGH = _tier() == "thorough"
 LAZY = os.environ.get("MODEB_NO_LAZY", "") == ""     # reciprocal generators for determinants (see FieldCtx.reciprocal)
 
 ASSUME_SOLVE = ("SOLVE: Quadratic.solve_systems returns the exact solution of the system built by the real build_system "
@@ -416,15 +439,16 @@ def _eigh_stub(a, *args, **kw):
 # ---------------------------------------------------------------------------------------------------------
 # exact inverse over the field, fraction-free
 # ---------------------------------------------------------------------------------------------------------
-def exact_inverse(F, rows, check=True):
-    """Inverse (list of lists of field elements) of a square matrix of field elements.
+def _int_poly_matrix(F, rows):
+    """rows (field elements) -> (small ZZ polynomial ring, P = diag(D) * rows as lists over it, D (ring elements of F), up).
 
-    Fraction-free: row i is multiplied by the lcm d_i of its denominators, the polynomial matrix P = diag(d) A is inverted
-    by sympy's DomainMatrix.inv_den (P^-1 = Num / den) in the polynomial ring over the generators that actually occur, and
-    A^-1 = Num diag(d) / den is brought back to canonical form entry by entry.  `check`: verify P Num == den I in the ring."""
+    Row i is multiplied by D_i = lcm of its denominators times the lcm of the coefficient denominators, so that P has integer
+    polynomial entries; only the generators that actually occur are kept in the small ring (integer coefficients are much
+    faster than QQ without gmpy).  `up` converts a small-ring polynomial back into F's ring."""
+    from sympy import ZZ
     from sympy.polys.rings import PolyRing
+    from math import lcm
     R = F.K.ring
-    N = len(rows)
     used = [False] * R.ngens
 
     def mark(p):
@@ -438,24 +462,21 @@ def exact_inverse(F, rows, check=True):
         for e in r:
             if e.denom != 1:
                 d = d.lcm(e.denom)
-        D.append(d)
         pr = [e.numer * d.exquo(e.denom) for e in r]
-        P.append(pr)
-        mark(d)
-        for q in pr:
-            mark(q)
-    idx = [i for i, u in enumerate(used) if u] or [0]
-    from sympy import ZZ
-    from math import lcm
-    small = PolyRing([R.symbols[i] for i in idx], ZZ)     # integer coefficients: much faster than QQ without gmpy
-    for i, pr in enumerate(P):
         c = 1
         for q in pr:
             for co in q.values():
                 c = lcm(c, int(co.denominator))
         if c != 1:
-            D[i] = D[i].mul_ground(QQ(c))
-            P[i] = [q.mul_ground(QQ(c)) for q in pr]
+            d = d.mul_ground(QQ(c))
+            pr = [q.mul_ground(QQ(c)) for q in pr]
+        D.append(d)
+        P.append(pr)
+        mark(d)
+        for q in pr:
+            mark(q)
+    idx = [i for i, u in enumerate(used) if u] or [0]
+    small = PolyRing([R.symbols[i] for i in idx], ZZ)
 
     def down(p):
         return small.from_dict({tuple(m[i] for i in idx): ZZ(int(c.numerator)) for m, c in p.items()})
@@ -468,7 +489,20 @@ def exact_inverse(F, rows, check=True):
                 full[i] = e
             out[tuple(full)] = QQ(int(c))
         return R.from_dict(out)
-    dm = DomainMatrix([[down(q) for q in pr] for pr in P], (N, N), small.to_domain())
+    return small, [[down(q) for q in pr] for pr in P], D, up
+
+
+def exact_inverse(F, rows, check=True):
+    """Inverse (list of lists of field elements) of a square matrix of field elements.
+
+    Fraction-free: P = diag(D) A has integer polynomial entries (see _int_poly_matrix), sympy's DomainMatrix.inv_den gives
+    P^-1 = Num / den in that ring, and A^-1 = Num diag(D) / den.  `check`: verify P Num == den I in the ring.
+    den = mono * D' with mono the monomial content; 1/D' becomes a reciprocal generator (FieldCtx.reciprocal) so that all later
+    arithmetic stays polynomial, the monomial part (powers of SCALE) is cancelled right here."""
+    R = F.K.ring
+    N = len(rows)
+    small, P, D, up = _int_poly_matrix(F, rows)
+    dm = DomainMatrix(P, (N, N), small.to_domain())
     try:
         num, den = dm.inv_den()
     except CaseTimeout:
@@ -484,8 +518,6 @@ def exact_inverse(F, rows, check=True):
             raise Unsupported("exact_inverse: DomainMatrix.inv_den returned a wrong inverse")
     numl = num.to_dense().rep.to_list() if hasattr(num.to_dense().rep, "to_list") else num.to_dense().rep
     den_up = up(den)
-    # den = mono * D' with mono the monomial content of den; 1/D' becomes a reciprocal generator (lazy mode), so that all
-    # later arithmetic stays polynomial; the monomial part (powers of SCALE) is cancelled right here
     mono_exp = [min(m[i] for m in den_up.keys()) for i in range(R.ngens)]
     mono = R.from_dict({tuple(mono_exp): QQ(1)})
     rec = F.reciprocal(den_up.exquo(mono))
@@ -640,16 +672,18 @@ def kkt_matrix(F, X):
 def det(F, W):
     """Exact determinant (field element) of a square matrix of field elements.
 
-    Fraction-free (Bareiss over the polynomial ring) when all entries are polynomials.  Rows and columns are first permuted
-    by the SAME permutation (determinant unchanged) so that the numerically simple rows/columns are eliminated first."""
+    Fraction-free (Bareiss over an integer polynomial ring, see _int_poly_matrix): det A = det(diag(D) A) / prod D_i.  Rows
+    and columns are first permuted by the SAME permutation (determinant unchanged) so that the numerically simple
+    rows/columns are eliminated first."""
     N = len(W)
-    if all(e.denom == 1 for r in W for e in r):
-        R = F.K.ring
-        weight = [max(max(len(W[i][j].numer), len(W[j][i].numer)) for j in range(N)) for i in range(N)]
-        perm = sorted(range(N), key=lambda i: (weight[i], i))
-        d = DomainMatrix([[W[i][j].numer for j in perm] for i in perm], (N, N), R.to_domain()).det()
-        return F.K.new(d, R(1))
-    return DomainMatrix([list(r) for r in W], (N, N), F.dom).det()
+    weight = [max(max(len(W[i][j].numer), len(W[j][i].numer)) for j in range(N)) for i in range(N)]
+    perm = sorted(range(N), key=lambda i: (weight[i], i))
+    small, P, D, up = _int_poly_matrix(F, [[W[i][j] for j in perm] for i in perm])
+    d = DomainMatrix(P, (N, N), small.to_domain()).det()
+    den = F.K.ring(1)
+    for x in D:
+        den = den * x
+    return F.K.new(up(d), den)
 
 
 def spec_solve(F, W, rhs):
@@ -747,6 +781,36 @@ class time_limit:
         return False
 
 
+_SELFTEST_DONE = False
+
+
+def selftest():
+    """Negative / positive controls of the decision procedure itself (run once per process; failure = engine error)."""
+    global _SELFTEST_DONE
+    if _SELFTEST_DONE:
+        return
+    F = FieldCtx(["u", "w"], lazy=True)
+    u, w = F.gens["u"], F.gens["w"]
+    D1 = (u * u + 3 * w + 1).numer
+    D2 = (u - w * w).numer * 5
+    r1, r2 = F.reciprocal(D1), F.reciprocal(D2)
+    e1, e2 = F.K.new(D1, F.K.ring(1)), F.K.new(D2, F.K.ring(1))
+    yes = [r1 * e1 - 1, r1 * r1 * e1 * e1 + r1 * e1 - 2, r1 * r2 * e1 * e2 - 1, (u * r1 + w * r2) * e1 * e2 - (u * e2 + w * e1),
+           F.lift(0.5) * 2 - 1, (F.sym("u") ** 2.0).v - u * u, (1.0 / F.scale ** 2.0 * F.scale * F.scale).v - 1]
+    no = [r1 * e1 - 2, r1 - r2, r1 * r2 * e1 - 1, r1 * e2 - 1, u * r1 - w * r1, F.lift(0.5) - F.lift(Fraction(1, 3))]
+    if not all(F.is_zero(x) for x in yes) or any(F.is_zero(x) for x in no):
+        raise Unsupported("modeb self-test failed: FieldCtx.is_zero is wrong")
+    a = arr([F.sym("u"), 2.0, 0])
+    if not ((a * 0.5)[1] == 1 and (a @ a) == F.sym("u") * F.sym("u") + 4 and not (a[0] == a[1])):
+        raise Unsupported("modeb self-test failed: Sc arithmetic inside object arrays is wrong")
+    inv = exact_inverse(F, [[u, F.K(1)], [F.K(2), w / u]], check=True)
+    ok = F.is_zero(u * inv[0][0] + inv[1][0] - 1) and F.is_zero(u * inv[0][1] + inv[1][1]) \
+        and F.is_zero(2 * inv[0][1] + w / u * inv[1][1] - 1) and F.is_zero(det(F, [[u, F.K(1)], [F.K(2), w / u]]) - (w - 2))
+    if not ok:
+        raise Unsupported("modeb self-test failed: exact_inverse / det")
+    _SELFTEST_DONE = True
+
+
 class Cases:
     """Runs the cases of one unit, turning each decided identity into one bounded obligation.
 
@@ -758,6 +822,7 @@ class Cases:
         self.c = c
         self.unit = unit
         Shadow()                  # warm-up (imports cobyqa / scipy / sympy.polys) outside of every case budget
+        selftest()
         self.t_end = time.time() + budget_s * (6 if THOROUGH else 1)
         self.skipped = []
         self.timings = []
